@@ -326,6 +326,11 @@ impl Module {
                     let decl = &mut module.global_registry[id.0 as usize];
                     let set = decl.lang_slot.set.unwrap_or(default_set);
 
+                    // Only extern variables are provided by the application
+                    if decl.storage_class != GlobalStorage::Extern {
+                        return;
+                    }
+
                     // If static samplers are implemented purely in shader source then do not give them slots
                     if decl.static_sampler.is_some() && !params.static_samplers_have_slots {
                         return;
@@ -366,7 +371,7 @@ impl Module {
                     let slot_count = array_count * slice_cost;
 
                     assert_eq!(decl.api_slot, None);
-                    if unmodified_tyl.is_object() {
+                    if matches!(unmodified_tyl, TypeLayer::Object(ot) if ot.is_resource()) {
                         if params.support_buffer_address
                             && module.type_registry.is_buffer_address(decl.type_id)
                         {
